@@ -246,6 +246,7 @@ type session struct {
 	prof              *countingProfiler
 	nload, noCtxFirst int
 	stdPkgs           map[string]bool    // packages that existed before the test program ran (standard library)
+	langNames         map[string]bool    // names bound in the language package when the session started
 	errIdx            map[*lisp.LVal]int // identity of error objects seen in this evaluation (capture builtin, final value)
 }
 
@@ -327,7 +328,7 @@ func newSession(cfg runCfg) (*session, error) {
 		return nil, fmt.Errorf("in-package: %v", rc)
 	}
 	env.AddBuiltins(true, &hostFn{"probe", lisp.Formals(lisp.VarArgSymbol, "xs"), s.probe},
-		&hostFn{"boom", lisp.Formals(), func(*lisp.LEnv, *lisp.LVal) *lisp.LVal {
+		&hostFn{"boom", lisp.Formals(lisp.VarArgSymbol, "xs"), func(*lisp.LEnv, *lisp.LVal) *lisp.LVal {
 			panic("boom (host builtin panic requested by the test program)")
 		}},
 		&hostFn{"capture", lisp.Formals(), s.capture})
@@ -343,6 +344,12 @@ func newSession(cfg runCfg) (*session, error) {
 	}
 	if rc := env.UsePackage(lisp.Symbol(lisp.DefaultLangPackage)); rc.Type == lisp.LError {
 		return nil, fmt.Errorf("use-package: %v", rc)
+	}
+	s.langNames = map[string]bool{}
+	if lp := env.Runtime.Registry.Package(lisp.DefaultLangPackage); lp != nil {
+		for _, n := range lp.SymbolNames() {
+			s.langNames[n] = true
+		}
 	}
 	s.stdPkgs = map[string]bool{}
 	for _, pn := range env.Runtime.Registry.PackageNames() {
@@ -417,12 +424,11 @@ func (s *session) restState() J {
 	r := s.env.Runtime
 	cc := r.CurrentCondition()
 	reg := J{}
-	langNames := map[string]bool{}
-	if lp := r.Registry.Package(lisp.DefaultLangPackage); lp != nil {
-		for _, n := range lp.SymbolNames() {
-			langNames[n] = true
-		}
+	// (the names the language package had when the session started: what a program adds to it later is reported)
+	if s.langNames == nil {
+		s.langNames = map[string]bool{}
 	}
+	langNames := s.langNames
 	for _, pn := range r.Registry.PackageNames() {
 		if pn == lisp.DefaultLangPackage || s.stdPkgs[pn] {
 			continue
